@@ -16,19 +16,24 @@ CHECK = {
            'universe in both argument orders, hash (fresh stack String and an independent MurmurHash64A), mem(u) for every operand and the NUL '
            'terminator inside the allocation are compared with libc applied to a reference char[]; rem and the operations that can die inside '
            'libc are first tried in a forked child sharing the state so that a crash is one terminal transition, not the end of the exploration; '
+           '*-hashop instances ("light" mode): hash(s) is an operation of the alphabet instead of a query of the state oracle and operations run without try blocks '
+           '(a try block looks the Exception object up in the thread-local Table, which hashes a String key between any two operations), the state key carries the '
+           'length at which hash was last asked and whether the content was edited since, so that hash ; edit ; hash is a path of its own; hash references never go '
+           'through String_Hash (independent MurmurHash64A and hash_data over the model bytes); '
            'distinct_nontrivial = states whose content holds some operand at two different (possibly overlapping) offsets; '
            'ladder instances cover every length beyond the BFS bound: for each payload length N and prefix length P one assign / concat / append / '
            'print_to(s,P,"%s",payload)+append / print_to(s,0,...) / resize(N) shrink and grow / rem(payload) from prefix+payload+suffix / rem absent / copy '
            'on a fresh String, each with the same libc oracle (non-trivial there: N or P+N within one of a power of two >= 64)'),
   'bounds': {
-    'quick': 'content over {a,b} up to length 5 (gcc) and up to length 4 (ASan+UBSan; 3 with aliased operands); operands = all 7 strings of length <= 2; resize(n) for n <= len+2; print_to at every pos <= len; ladder: payload lengths 0..300 x prefix lengths {0,1,5,127,128} x 10 operations (gcc and ASan+UBSan)',
-    'thorough': 'content over {a,b,c} up to length 6 with operands of length <= 2 (13), {a,b,c} up to 5 and {a,b} up to 8 with operands of length <= 3; ASan+UBSan: {a,b} up to 6 and {a,b,c} up to 4; ladder: payload lengths 0..1100 (crossing 64, 128, 256, 512, 1024 and neighbours) x the same prefixes and operations',
+    'quick': 'content over {a,b} up to length 5 (gcc) and up to length 4 (ASan+UBSan; 3 with aliased operands); operands = all 7 strings of length <= 2; resize(n) for n <= len+2; print_to at every pos <= len; light mode {a,b} up to 4 (gcc) and 3 (ASan); ladder (hash asked right before and right after every operation): payload lengths 0..300 x prefix lengths {0,1,5,127,128} x 10 operations (gcc and ASan+UBSan)',
+    'thorough': 'content over {a,b,c} up to length 6 with operands of length <= 2 (13), {a,b,c} up to 5 and {a,b} up to 8 with operands of length <= 3; ASan+UBSan: {a,b} up to 6 and {a,b,c} up to 4; light mode {a,b,c} up to 4, {a,b} up to 6, ASan {a,b} up to 4; ladder: payload lengths 0..1100 (crossing 64, 128, 256, 512, 1024 and neighbours) x the same prefixes and operations',
   },
   'assumptions': [
     'contents over a 2- or 3-letter alphabet represent all contents (String code treats bytes uniformly; cmp is additionally evaluated against bytes below/above the alphabet and >= 0x80)',
     'resize(n > len): the property does not fix the padding; required are NUL termination inside the allocation, room for n characters and the old content as a prefix (this implementation pads with NUL, i.e. the C string is unchanged)',
     'rem of an absent substring: the string must be unchanged; an exception is optional but must be ValueError or KeyError',
     'aliased arguments (the operand IS the target: assign(s,s), concat(s,s), rem(s,s)) are the limiting case of "equal in value to the target"; they are explored by separate *-alias instances (alias=1) so that they can be dropped if aliasing is ruled out of scope',
+    'detection of anything String_Hash might remember depends on the allocator returning the same block (in-place realloc in the gcc build); the verdict itself never depends on addresses',
     'gcc/clang, glibc (strcmp/strstr/strlen/memmove/malloc_usable_size) and the sanitizer run-times are trusted',
   ],
   'instances': {
@@ -39,6 +44,9 @@ CHECK = {
       T('ab3-alias-asan', 'asan', 'alpha=2', 'maxlen=3', 'alias=1'),
       T('ab4-alias', 'base', 'alpha=2', 'maxlen=4', 'alias=1'),
       # every length from empty upwards: one operation per fresh String, payload lengths 0..300 x prefix lengths {0,1,5,127,128}
+      # "light" mode: hash(s) is an operation of the alphabet (not a query of the state oracle); the state key carries the length at which it was last asked
+      T('ab4-hashop', 'base', 'alpha=2', 'maxlen=4', 'hashop=1'),
+      T('ab3-hashop-asan', 'asan', 'alpha=2', 'maxlen=3', 'hashop=1'),
       T('ladder', 'base', 'mode=ladder', 'maxn=300'),
       T('ladder-asan', 'asan', 'mode=ladder', 'maxn=300'),
     ],
@@ -50,6 +58,9 @@ CHECK = {
       T('abc4-asan', 'asan', 'alpha=3', 'maxlen=4'),
       T('ab5-alias-asan', 'asan', 'alpha=2', 'maxlen=5', 'alias=1'),
       T('abc5-alias', 'base', 'alpha=3', 'maxlen=5', 'alias=1'),
+      T('abc4-hashop', 'base', 'alpha=3', 'maxlen=4', 'hashop=1'),
+      T('ab6-hashop', 'base', 'alpha=2', 'maxlen=6', 'hashop=1'),
+      T('ab4-hashop-asan', 'asan', 'alpha=2', 'maxlen=4', 'hashop=1'),
       T('ladder', 'base', 'mode=ladder', 'maxn=1100'),
       T('ladder-asan', 'asan', 'mode=ladder', 'maxn=1100'),
     ],
